@@ -504,6 +504,84 @@ func rulesC09(c *Ctx) {
 		}
 		c.Floor("L7", n7, 1)
 	}
+	// ---- L8 what is stored into a node under its lock was read under the same hold --------------
+	// (read under RLock, unlock, publish under Lock: between the two holds a writer can change the
+	// node, and the stale value is installed over the newer state)
+	{
+		n8 := 0
+		for _, T := range []*types.Named{dir, file} {
+			st, okS := T.Underlying().(*types.Struct)
+			if !okS {
+				continue
+			}
+			var guards []int
+			for i := 0; i < st.NumFields(); i++ {
+				ts := st.Field(i).Type().String()
+				if ts == "sync.Mutex" || ts == "sync.RWMutex" {
+					guards = append(guards, i)
+				}
+			}
+			for _, f := range fns {
+				la := le.Analyze(f)
+				f := f
+				eachInstr(f, func(_ *ssa.BasicBlock, _ int, in ssa.Instruction) {
+					sto, ok := in.(*ssa.Store)
+					if !ok {
+						return
+					}
+					fa, ok := sto.Addr.(*ssa.FieldAddr)
+					if !ok || structOf(fa.X.Type()) != st || freshBase(fa.X) {
+						return
+					}
+					// reads of the same object's fields the stored value is computed from
+					var reads []*ssa.UnOp
+					seen := map[ssa.Value]bool{}
+					var walk func(v ssa.Value, d int)
+					walk = func(v ssa.Value, d int) {
+						if v == nil || seen[v] || d > 8 {
+							return
+						}
+						seen[v] = true
+						if u, isU := v.(*ssa.UnOp); isU && u.Op == token.MUL {
+							if rfa, isFA := u.X.(*ssa.FieldAddr); isFA && structOf(rfa.X.Type()) == st && keyP(rfa.X) == keyP(fa.X) {
+								reads = append(reads, u)
+								return
+							}
+						}
+						if call, isC := v.(*ssa.Call); isC {
+							if _, isB := call.Call.Value.(*ssa.Builtin); !isB {
+								return
+							}
+						}
+						if ins, isI := v.(ssa.Instruction); isI {
+							for _, op := range ins.Operands(nil) {
+								if op != nil && *op != nil {
+									walk(*op, d+1)
+								}
+							}
+						}
+					}
+					walk(sto.Val, 0)
+					if len(reads) == 0 {
+						return
+					}
+					n8++
+					bad := ""
+					for _, r := range reads {
+						for _, gi := range guards {
+							key := fmt.Sprintf("%s.&f%d", keyP(fa.X), gi)
+							if _, held := la.HeldBefore(sto)[key]; held && la.releasedBetween(key, r, sto) {
+								bad = "the value stored at " + c.pos(sto.Pos()) + " is computed from " + fieldName(r.X.(*ssa.FieldAddr)) + " read at " + c.pos(r.Pos()) + ", and the node's lock is released in between"
+							}
+						}
+					}
+					c.Check(bad == "", "L8", fmt.Sprintf("store to %s in %s uses what it read under the same hold", fieldName(fa), fname(f)), sto.Pos(), "no release of the node's lock between the read and the store",
+						bad+" — a writer that runs in the gap is overwritten by the stale value (a finished write is missing from later listings / reads)")
+				})
+			}
+		}
+		c.Floor("L8", n8, 1)
+	}
 
 	// ---- L5 no lock leak -------------------------------------------------------
 	acq := 0
